@@ -324,6 +324,51 @@ pub fn threads(n: usize, rng: &mut Rng, out: &mut Out) {
             out.search(1, p);
         }
         out.display(1);
+        // searches before an insert: paths that miss are searched (sequentially and from eight threads), then templates
+        // that fit them are inserted — spelled with escapes, with groups, with parameters — and the same paths are searched
+        // again; a router built with the final set that was never searched must answer the same (a memo of misses, an index
+        // built lazily by the first search, … survive an insert they do not recognise)
+        out.reset();
+        out.new_router(0, KEYS);
+        out.insert(0, "/static", 1);
+        out.insert(0, "/users/{id}/posts", 2);
+        let late = [
+            "/wiki/Rust_\\(language\\)/{section}", "/users/\\{id\\}", "/a\\\\b/{x}", "/files(/{name}).txt", "/{*rest}/end", "/u\\sers/me",
+            "/stat\\ic/x", "/é\\(日\\)", "(/opt)/tail",
+        ];
+        let probes = [
+            "/wiki/Rust_(language)/intro", "/users/{id}", "/a\\b/1", "/files.txt", "/files/report.txt", "/x/y/end", "/users/me", "/static/x",
+            "/é(日)", "/tail", "/opt/tail", "/nothing",
+        ];
+        for p in &probes {
+            out.search(0, p);
+        }
+        let hs: Vec<String> = probes.iter().map(|p| hex(p.as_bytes())).collect();
+        out.op(format!("# psearch 0 8 {}", hs.join(" ")));
+        let pick = rng.below(late.len());
+        for (d, t) in late.iter().enumerate() {
+            if d % 3 == pick % 3 {
+                continue;
+            }
+            out.insert(0, t, 10 + d as u32);
+            for p in &probes {
+                out.search(0, p);
+            }
+        }
+        out.op(format!("# psearch 0 8 {}", hs.join(" ")));
+        out.display(0);
+        out.new_router(1, KEYS);
+        out.insert(1, "/static", 1);
+        out.insert(1, "/users/{id}/posts", 2);
+        for (d, t) in late.iter().enumerate() {
+            if d % 3 != pick % 3 {
+                out.insert(1, t, 10 + d as u32);
+            }
+        }
+        for p in &probes {
+            out.search(1, p);
+        }
+        out.display(1);
     }
 }
 
